@@ -492,6 +492,10 @@ func (l *Lowerer) invAssume(ls *LoopSpec, hidden map[string]envEntry) {
 	for _, c := range ls.Invs {
 		l.assumeTagged(l.specTerm(c, hidden), clauseTag(c))
 	}
+	for _, c := range ls.Assumes {
+		l.assume(l.specTerm(c, hidden))
+		l.note("assumed at a loop head without proof: " + c.Src)
+	}
 }
 
 // clauseTag: the clause family of an invariant: its label, or the label of the monitor-invariant clause it restates.
